@@ -346,6 +346,8 @@ def main(argv):
             return 2
 
     # ---- 2. replay mode ---------------------------------------------------------------------
+    from . import cover
+    cover.start()             # reach obligation: new source lines in exercised functions must be executed by this run
     rng = random.Random(seed)
     if a.replay:
         rp = json.load(open(a.replay))
@@ -442,6 +444,25 @@ def main(argv):
                      "broken": None if ofail else "correspondence between coq/Model (Interp.run) and /repo on this program"},
                found=bool(ofail))
 
+    # ---- 4b. reach obligation of the tie ---------------------------------------------------------
+    hits = cover.stop()
+    unreached = []
+    if not a.replay:
+        own = cover.unreached_new_lines(hits)          # new lines in functions THIS run exercises that it did not execute
+        if own:
+            allhits, uerr = cover.union_hits()          # ... and that no generator of any property executes either
+            if uerr:
+                notes.append(uerr)
+            reached = {(f, l) for f, l in allhits}
+            unreached = [u for u in own if (u[0], u[1]) not in reached]
+    if unreached:
+        uf, ul, uq, ut = unreached[0]
+        report(f"new code is not reached by any generated case: {uf}:{ul} in {uq}: {ut[:100]}",
+               {"unreached_new_lines": [list(u) for u in unreached[:40]],
+                "broken": "correspondence tie: source lines added or changed since the snapshot coverage/baseline.json, inside functions this "
+                          "check exercises, that no generated case executes - the comparison with the model says nothing about them"},
+               False)
+
     # ---- 5. known findings, verdict, evidence ------------------------------------------------------
     known = load_known()
     open_k = {}
@@ -478,6 +499,8 @@ def main(argv):
         "traces_validated_against_impl": len(cases),
         "correspondence_disagreements": n_diff,
         "float_ambiguous_cases_skipped": n_dust,
+        "source_lines_executed": len(hits),
+        "new_source_lines_unreached": len(unreached),
         "input_distribution": dist,
         "outcome_distribution": err_kinds,          # exceptions raised by the implementation, by class, over all ops
         "op_counts": op_counts,
